@@ -261,6 +261,15 @@ class WalkerModel:
                                 elif isinstance(e.value, ast.Name) and e.value.id in fu.derive:
                                     f, sh, sub = fu.derive[e.value.id]
                                     stores.append((f, e.attr, n))
+                elif isinstance(n, ast.AugAssign):
+                    # `acc += [x]` / `acc += x if isinstance(x, list) else [x]`: the accumulator carries the result; `node.f += ..` stores it
+                    if mentions(n.value):
+                        if isinstance(n.target, ast.Name):
+                            tainted.add(n.target.id)
+                        elif isinstance(n.target, ast.Attribute):
+                            src = fu.field_of(n.target)
+                            if src:
+                                stores.append((src[0], src[2] if src[1] != 'node' else None, n))
                 elif isinstance(n, ast.Expr) and isinstance(n.value, ast.Call) and isinstance(n.value.func, ast.Attribute):
                     f = n.value.func
                     if f.attr in ('append', 'extend', 'insert', 'add', 'update') and any(mentions(a) for a in n.value.args):
